@@ -140,6 +140,32 @@ def check_map_encoder(ctx, ty, emit, extras_field, rules=("R-1", "R-2", "R-5", "
         ctx.ob(R5, "extras-in-order:%s" % ty, ok,
                "the extras of %s are emitted as (label, value) for each element of `%s` in list order, value untouched" % (ty, extras_field),
                where=f.where(le["bb"]), detail=det, sample=det)
+    # a well-formed value is encoded, not refused: the only error an encoder raises itself is the duplicate-label error, and only on
+    # the hit edge of a lookup in its duplicate set (everything else is the propagated error of a nested encoder)
+    from lib.mapcodec import SET_CONTAINS, SET_INSERT
+    refusals = []
+    for o in outcomes(f, me.pv):
+        if o["kind"] != "err":
+            continue
+        inner = o["inner"]
+        name = inner[2] if inner and inner[0] == "aggr" else show(inner)[:40]
+        last = None
+        for c in o["conds"]:
+            if c[0][0] == "discr" and is_call(c[0][1], "core::ops::try_trait::Try::branch"):
+                continue
+            last = c
+        nb = normalize_bool_cond(last) if last else None
+        hit = False
+        if nb:
+            tt, val = nb
+            if tt[0] == "unop" and tt[1] == "Not":
+                tt, val = tt[2], not val
+            hit = (is_call(tt, SET_CONTAINS) and val is True) or (is_call(tt, SET_INSERT) and val is False)
+        if name != "DuplicateMapKey" or not hit:
+            refusals.append("%s at %s" % (name, f.where(o["bb"])))
+    ctx.ob(R5, "refuses-only-duplicates:%s" % ty, not refusals,
+           "%s::to_cbor_value raises no error of its own except DuplicateMapKey on a hit in its duplicate set" % ty, where=f.span,
+           detail={"other_refusals": refusals})
     # the encoder may not reorder / edit its own fields before emitting them; the one allowed in-place operation is taking
     # the single counter-signature out of its list (remove(0) under len == 1)
     bad = [m for m in me.self_mutations
@@ -152,6 +178,17 @@ def check_map_encoder(ctx, ty, emit, extras_field, rules=("R-1", "R-2", "R-5", "
     ctx.ob(R6, "coverage:%s" % ty, sorted(allf) == emitted, "every field of %s is emitted by its encoder" % ty,
            detail={"struct": allf, "emitted": emitted})
     return me
+
+
+def check_protected_map_form(ctx, rule):
+    """ProtectedHeader::to_cbor_value - what `to_vec()` serialises on cbor_bstr's None edge - is the header map"""
+    prog = ctx.prog
+    e = prog.fn(enc_key("header::ProtectedHeader"))
+    rt = Prov(e).return_term()
+    ctx.ob(rule, "encoder:header::ProtectedHeader(map form)",
+           is_call(rt, "<header::Header as common::AsCborValue>::to_cbor_value") and rt[2] == (("field", ("param", 0), "header"),),
+           "ProtectedHeader::to_cbor_value (the bare map form) is Header::to_cbor_value(self.header) on every path", where=e.span,
+           detail={"returns": show(rt)[:160]})
 
 
 def extras_source(le):
@@ -195,12 +232,7 @@ def check(ctx):
     rt = Prov(e).return_term()
     ctx.ob("R-1", "encoder:key::CoseKeySet", is_call(rt, codec.TO_ARRAY) and rt[2] == (("field", ("param", 0), "0"),),
            "CoseKeySet encodes as to_cbor_array(self.0)", where=e.span, detail={"returns": show(rt)[:120]})
-    e = prog.fn(enc_key("header::ProtectedHeader"))
-    rt = Prov(e).return_term()
-    ctx.ob("R-1", "encoder:header::ProtectedHeader(map form)",
-           is_call(rt, "<header::Header as common::AsCborValue>::to_cbor_value") and rt[2] == (("field", ("param", 0), "header"),),
-           "ProtectedHeader::to_cbor_value (the bare map form) is Header::to_cbor_value(self.header) on every path", where=e.span,
-           detail={"returns": show(rt)[:160]})
+    check_protected_map_form(ctx, "R-1")
     ctx.floor("R-1", "encoders analysed", len(MESSAGE_TYPES) + 4, 12)
 
     # ---- R-3 emptiness and the protected bstr ---------------------------------------------------------------
